@@ -728,6 +728,22 @@ impl<'a> StrictReader<'a> {
             }
         }
         // integer objects (for indirect /Length) are resolved through the cross-reference data
+        // a length kept as a plain object (the only form allowed for the Length of an object stream itself)
+        let resolve_plain = |n: u32, g: u16| -> Option<i64> {
+            for s in &sections {
+                if let Some(Entry::InUse { offset, gen }) = s.entries.get(&n) {
+                    if *gen == g {
+                        let mut st = Stats::default();
+                        if let Ok((id, RObj::Int(i), _)) = self.indirect_at(*offset, &|_, _| None, &mut st) {
+                            if id == (n, g) {
+                                return Some(i);
+                            }
+                        }
+                    }
+                }
+            }
+            None
+        };
         let resolve_int = |n: u32, g: u16| -> Option<i64> {
             // search every section: an older revision's stream may refer to an older length object
             for s in &sections {
@@ -743,7 +759,7 @@ impl<'a> StrictReader<'a> {
                     Some(Entry::Compressed { container, index }) if g == 0 => {
                         if let Some(Entry::InUse { offset, .. }) = merged.get(container) {
                             let mut st = Stats::default();
-                            if let Ok((_, RObj::Stream(d, raw), _)) = self.indirect_at(*offset, &|_, _| None, &mut st) {
+                            if let Ok((_, RObj::Stream(d, raw), _)) = self.indirect_at(*offset, &resolve_plain, &mut st) {
                                 if let Ok(objs) = self.objstm_objects(&d, &raw) {
                                     if let Some((a, RObj::Int(i))) = objs.get(*index) {
                                         if *a == n {
